@@ -625,7 +625,6 @@ impl<'a, T: Send> Future for RecvBatchFuture<'a, T> {
       }
     }
 
-    let was_registered = this.is_registered;
     this.is_registered = true;
     match this
       .receiver
@@ -634,10 +633,6 @@ impl<'a, T: Send> Future for RecvBatchFuture<'a, T> {
     {
       Poll::Ready(res) => {
         this.is_registered = false;
-        if was_registered {
-          // Completed on a re-poll: our record may still be queued.
-          this.receiver.shared.unlink_async_receiver(state_ptr);
-        }
         Poll::Ready(res.map(|_| out))
       }
       Poll::Pending => Poll::Pending,
@@ -727,7 +722,6 @@ impl<'a, T: Send> Future for RecvBatchMutFuture<'a, T> {
       }
     }
 
-    let was_registered = this.is_registered;
     this.is_registered = true;
     match this
       .receiver
@@ -736,10 +730,6 @@ impl<'a, T: Send> Future for RecvBatchMutFuture<'a, T> {
     {
       Poll::Ready(res) => {
         this.is_registered = false;
-        if was_registered {
-          // Completed on a re-poll: our record may still be queued.
-          this.receiver.shared.unlink_async_receiver(state_ptr);
-        }
         Poll::Ready(res)
       }
       Poll::Pending => Poll::Pending,
@@ -825,15 +815,10 @@ impl<'a, T: Send> Future for RecvFuture<'a, T> {
       }
     }
 
-    let was_registered = this.is_registered;
     this.is_registered = true;
     match this.receiver.shared.poll_recv_internal(cx, state_ptr) {
       Poll::Ready(res) => {
         this.is_registered = false;
-        if was_registered {
-          // Completed on a re-poll: our record may still be queued.
-          this.receiver.shared.unlink_async_receiver(state_ptr);
-        }
         Poll::Ready(res)
       }
       Poll::Pending => Poll::Pending,
@@ -902,24 +887,16 @@ impl<T: Send> Stream for AsyncReceiver<T> {
     }
 
     let state_ptr = &*this.state as *const AtomicU8;
-    let was_registered = this.is_registered;
     this.is_registered = true;
 
     match this.shared.poll_recv_internal(cx, state_ptr) {
       Poll::Ready(Ok(value)) => {
         this.is_registered = false;
-        if was_registered {
-          // Completed on a re-poll: our record may still be queued.
-          this.shared.unlink_async_receiver(state_ptr);
-        }
         this.state.store(STATE_WAITING, Ordering::Relaxed); // Reset for next recv cycle.
         Poll::Ready(Some(value))
       }
       Poll::Ready(Err(_)) => {
         this.is_registered = false;
-        if was_registered {
-          this.shared.unlink_async_receiver(state_ptr);
-        }
         this.state.store(STATE_WAITING, Ordering::Relaxed);
         Poll::Ready(None) // Disconnected
       }
